@@ -76,7 +76,8 @@ def _gen(seed, k, nst, nsol, vel, tri, expo, zero='dense'):
     ag = sx.AGENCIES[(k + seed) % len(sx.AGENCIES)]
     dag = sx.AGENCIES[(3 * k + 1 + seed) % len(sx.AGENCIES)]
     return {'fseed': '%s-%s-%s' % (ID, seed, 'f%d' % k), 'nst': nst, 'nsol': nsol, 'vel': bool(vel), 'tri': tri, 'expo': expo,
-            'agency': ag, 'dagency': dag, 'cstyle': ['star', 'blank', 'none'][(k + seed) % 3], 'zero': zero}
+            'agency': ag, 'dagency': dag, 'cstyle': ['star', 'blank', 'none'][(k + seed) % 3], 'zero': zero,
+            'order': 'by-solution' if (nsol > 1 and nst > 1 and (k + seed) % 3 == 1) else 'grouped'}
 
 
 def _nsubsets(f):
@@ -508,8 +509,16 @@ def run_edit(h, ctx, m, in_lines, inpath, op, removed, clocks, sample=False):
     case = {'gen': m['gen'], 'op': op, 'remove': list(removed), 'clocks': [list(c) for c in clocks]}
     g = m['gen']
     outs = []
-    # one exclusion list object for the whole batch of calls, as a caller processing several files would hold it
-    shared = list(removed)
+    # one exclusion list object for the whole batch of calls, as a caller processing several files would hold it; in a share
+    # of the edits the stations are handed over in another container (the function only asks `site in sites`)
+    kind = 'list'
+    if op == 'stns':
+        kind = ['list', 'list', 'list', 'tuple', 'set', 'frozenset', 'dict-keys'][int(core.stable_hash([g['fseed'], list(removed)]), 16) % 7]
+    shared = {'list': list, 'tuple': tuple, 'set': set, 'frozenset': frozenset,
+              'dict-keys': lambda r: dict.fromkeys(r).keys()}[kind](removed)
+    case['container'] = kind
+    if op == 'stns':
+        ctx.count('stations_handed_over_as:' + kind)
     todo = list(clocks)
     extra = False
     while todo:
@@ -517,7 +526,7 @@ def run_edit(h, ctx, m, in_lines, inpath, op, removed, clocks, sample=False):
         text, exc = h.edit(op, inpath, removed, c, removal_list=shared)
         if op == 'stns':
             ctx.count('calls_with_the_callers_own_list')
-            if shared != list(removed) and not todo and not extra:
+            if sorted(shared) != sorted(removed) and not todo and not extra:
                 # the call rewrote the caller's list: what the property promises is judged on the next call of the batch
                 ctx.count('removal_list_rewritten_by_call')
                 todo.append(c)
